@@ -173,8 +173,7 @@ func Eval(e *Expr, in []*V, env Env) ([]*V, error) {
 		var out []*V
 		for _, v := range in {
 			if v.K != Seq {
-				// yq slices the raw content of maps and yields [] for scalars: not part of the documented semantics
-				return nil, ErrDomain
+				return nil, evalErr("cannot slice %s, only arrays can be sliced", v.K)
 			}
 			n := len(v.A)
 			a, b := 0, n
